@@ -113,13 +113,16 @@ def shards(tier, seed, scale=1.0):
         out.append({'name': 'machine-%d' % s, 'kind': 'machine', 'seed': seed * 1000 + s, 'n': max(3, int(n * scale)), 'steps': steps})
     for s in range(4):
         out.append({'name': 'threads-%d' % s, 'kind': 'threads', 'seed': seed * 1000 + 100 + s, 'sweeps': 3 if tier == 'quick' else 60})
+    for s in range(4):
+        out.append({'name': 'world-%d' % s, 'kind': 'world', 'seed': seed * 1000 + 200 + s, 'n': max(3, int((10 if tier == 'quick' else 150) * scale)),
+                    'steps': 40 if tier == 'quick' else 80})
     out.append({'name': 'objects', 'kind': 'objects'})
     out.append({'name': 'fresh', 'kind': 'fresh', 'seed': seed})
     return out
 
 
 def run_shard(desc):
-    return {'machine': run_machine, 'threads': run_threads, 'objects': run_objects, 'fresh': run_fresh}[desc['kind']](desc)
+    return {'machine': run_machine, 'threads': run_threads, 'objects': run_objects, 'fresh': run_fresh, 'world': run_world}[desc['kind']](desc)
 
 
 def baseline(descs, root):
@@ -393,6 +396,250 @@ print(json.dumps([[list(sel[i]), res[i]] for i in range(len(sel))]))
 '''
 
 
+# ---- histories in which the file system and the environment change between calls -------------------------------------------
+W_DIRS = ['home1', 'home1/sub', 'home2', 'd', 'd/e', '.hid']
+W_FILES = ['home1/a.txt', 'home1/sub/s.txt', 'home2/b.txt', 'd/a.txt', 'd/e/c.txt', 'top.txt', '.h.txt', '.hid/x.txt', 'd/A.TXT']
+W_LINKS = [('lnk', 'd'), ('home3', 'home1'), ('d/up', '..'), ('dang', 'nowhere')]
+W_HOMES = ['home1', 'home2', 'home3', 'nohome', 'd']
+W_CALLS = ([('glob', p, fl) for p in ('~/*.txt', '~', '~/sub/*', '~/**', '*.txt', '**/*.txt', '*/', 'lnk/*', '**', 'd/**/*.txt', '*/*/', 'dang', '[dl]*/a.txt',
+                                      'D/A.TXT', '~/../top.txt')
+            for fl in (('T', 'G'), ('T', 'G', 'D'), ('T', 'G', 'L'), ('T', 'G', 'I'), ('G',), ('T', 'G', 'O', 'K'))] +
+           [('globcwd', p, fl) for p in ('*', '**/*.txt', 'd/*') for fl in (('G',), ('G', 'D', 'L'))] +
+           [('gm', nm, p, fl) for nm, p in (('lnk/a.txt', '**/a.txt'), ('lnk/a.txt', 'lnk/*'), ('d/a.txt', '**'), ('d/e', '**/'), ('top.txt', '*.txt'),
+                                            ('dang', '*'), ('home1', '*/'), ('d/up/top.txt', '**/top.txt'), ('d/a.txt', '*.txt'), ('lnk/a.txt', '*.txt'))
+            for fl in (('G', 'P'), ('G', 'P', 'L'), ('P', 'X'), ('G', 'P', 'O'))] +
+           [('gmt', nm, p, fl) for nm, p in (('a.txt', '~/*.txt'), ('b.txt', '~/*.txt')) for fl in (('T', 'P'), ('T',))] +
+           [('wc', fp, fl) for fp in ('*.txt', '*.txt|!a*', '*') for fl in (('RV',), ('RV', 'HD'), ('RV', 'SL'), ())] +
+           [('pl', p, fl) for p in ('**/*.txt', '*/a.txt', '~/*.txt') for fl in (('G',), ('G', 'L'), ('G', 'T'))])
+
+
+def gflags(names):
+    v = 0
+    for n in names:
+        v |= getattr(G, n)
+    return v
+
+
+def world_call(d, root):
+    """One call against the current state of the world (`root` tree, HOME, cwd)."""
+    from wcmatch import wcmatch as WM, pathlib as PL
+    kind = d[0]
+    try:
+        if kind == 'glob':
+            with util.ScandirCounter(5000):
+                return sorted(G.glob(d[1], flags=gflags(d[2]), root_dir=root))
+        if kind == 'globcwd':
+            with util.chdir(root), util.ScandirCounter(5000):
+                return sorted(G.glob(d[1], flags=gflags(d[2])))
+        if kind == 'gm':
+            return G.globmatch(d[1], d[2], flags=gflags(d[3]), root_dir=root)
+        if kind == 'gmt':
+            return G.globmatch(os.path.join(os.environ.get('HOME', '/nonexistent'), d[1]), d[2], flags=gflags(d[3]))
+        if kind == 'wc':
+            fl = 0
+            for n in d[2]:
+                fl |= getattr(WM, n)
+            with util.ScandirCounter(5000):
+                return sorted(WM.WcMatch(root, d[1], flags=fl).match())
+        if kind == 'pl':
+            fl = 0
+            for n in d[2]:
+                fl |= getattr(PL, n)
+            with util.ScandirCounter(5000):
+                return sorted(str(x) for x in PL.Path(root).glob(d[1], flags=fl))
+    except Exception as e:
+        return ('EXC', type(e).__name__)
+    raise HarnessError(kind)
+
+
+def clear_every_cache():
+    """Clear every functools cache reachable from a wcmatch / bracex module (not only the one the documentation names)."""
+    n = 0
+    for name, mod in list(sys.modules.items()):
+        if mod is None or not (name == 'wcmatch' or name.startswith('wcmatch.') or name == 'bracex' or name.startswith('bracex.')):
+            continue
+        for v in list(vars(mod).values()):
+            if callable(getattr(v, 'cache_clear', None)):
+                v.cache_clear()
+                n += 1
+    return n
+
+
+WORLD_SCRIPT = r"""
+import sys, os, json
+sys.path.insert(0, %(verif)r)
+import wcverif
+wcverif.bootstrap()
+from wcverif.checks import c19
+calls = json.loads(%(calls)r)
+root = %(root)r
+if %(reverse)r:
+    res = [c19.jsonable(c19.world_call(tuple(tuple(x) if isinstance(x, list) else x for x in d), root)) for d in reversed(calls)][::-1]
+else:
+    res = [c19.jsonable(c19.world_call(tuple(tuple(x) if isinstance(x, list) else x for x in d), root)) for d in calls]
+print(json.dumps(res))
+"""
+
+
+def world_apply(root, op):
+    """Apply one world mutation; returns False when it does not apply in the current state."""
+    import shutil
+    k = op[0]
+    if k == 'home':
+        os.environ['HOME'] = os.path.join(root, op[1])
+        return True
+    p = os.path.join(root, op[1])
+    if k == 'mkdir':
+        if os.path.lexists(p) or not os.path.isdir(os.path.dirname(p)):
+            return False
+        os.mkdir(p)
+    elif k == 'rmtree':
+        if os.path.islink(p) or not os.path.isdir(p):
+            return False
+        shutil.rmtree(p)
+    elif k == 'touch':
+        if os.path.lexists(p) or not os.path.isdir(os.path.dirname(p)):
+            return False
+        open(p, 'w').close()
+    elif k == 'rm':
+        if not os.path.isfile(p) or os.path.islink(p):
+            return False
+        os.unlink(p)
+    elif k == 'link':
+        if os.path.lexists(p) or not os.path.isdir(os.path.dirname(p)):
+            return False
+        os.symlink(op[2], p)
+    elif k == 'unlink':
+        if not os.path.islink(p):
+            return False
+        os.unlink(p)
+    else:
+        raise HarnessError(k)
+    return True
+
+
+def world_history(root, history, probe, out=None):
+    """Replay a history (mutations and calls) and return the warm answer for `probe` at its end plus the cleared-cache answer."""
+    for h in history:
+        if h[0] == 'call':
+            world_call(tuple(tuple(x) if isinstance(x, list) else x for x in h[1]), root)
+        elif h[0] == 'clear':
+            clear_every_cache()
+        else:
+            world_apply(root, h)
+    warm = world_call(probe, root)
+    clear_every_cache()
+    cold = world_call(probe, root)
+    return warm, cold
+
+
+def run_world(desc):
+    """State machine over a world that changes between calls: files, directories and symlinks appear and vanish, HOME moves between
+    existing and missing directories.  Oracles: (a) the warm answer of every call equals the answer of the same call repeated at once
+    with every cache of the package cleared; (b) at the end of each history all descriptors are evaluated warm and compared with two
+    fresh interpreters (forward and reverse order) looking at the same final world."""
+    from hypothesis import strategies as st, seed, settings, HealthCheck, Verbosity
+    from hypothesis.stateful import RuleBasedStateMachine, rule, run_state_machine_as_test
+    out = Outcome()
+    home0 = os.environ.get('HOME')
+    stats = {'mut': 0, 'home': 0, 'fresh': 0}
+    muts = ([('mkdir', x) for x in W_DIRS] + [('rmtree', x) for x in W_DIRS] + [('touch', x) for x in W_FILES] + [('rm', x) for x in W_FILES] +
+            [('link', a, b) for a, b in W_LINKS] + [('unlink', a) for a, _b in W_LINKS])
+    env = dict(os.environ, PYTHONHASHSEED='1', VERIF_REPO=os.environ.get('VERIF_REPO', '/repo'))
+    try:
+        with util.temp_root() as tmp:
+            counter = [0]
+
+            class World(RuleBasedStateMachine):
+                def __init__(self):
+                    super().__init__()
+                    counter[0] += 1
+                    self.root = os.path.join(tmp, 'w%d' % counter[0])
+                    os.mkdir(self.root)
+                    self.history = []
+                    self.changed = 0
+                    for op in (('mkdir', 'd'), ('touch', 'd/a.txt'), ('touch', 'top.txt'), ('home', 'home1')):
+                        world_apply(self.root, op)
+                        self.history.append(list(op))
+                    clear_every_cache()
+
+                def check(self, d):
+                    warm = world_call(d, self.root)
+                    self.history.append(['call', jsonable(d)])
+                    clear_every_cache()
+                    cold = world_call(d, self.root)
+                    out.evaluations += 1
+                    if warm != cold:
+                        out.violation({'world': self.history[-60:], 'call': jsonable(d), 'got': jsonable(warm), 'want': jsonable(cold),
+                                       'problem': 'answer differs from the same call with every cache cleared (world changed between calls)'},
+                                      size=len(self.history), bucket=('world', d[0]))
+                        raise AssertionError('world history dependence')
+
+                @rule(i=st.integers(0, len(muts) - 1))
+                def mutate(self, i):
+                    if world_apply(self.root, muts[i]):
+                        self.history.append(list(muts[i]))
+                        self.changed += 1
+
+                @rule(i=st.integers(0, len(W_HOMES) - 1))
+                def home(self, i):
+                    world_apply(self.root, ('home', W_HOMES[i]))
+                    self.history.append(['home', W_HOMES[i]])
+                    self.changed += 1
+                    stats['home'] += 1
+
+                @rule(i=st.integers(0, len(W_CALLS) - 1))
+                def call1(self, i):
+                    self.check(W_CALLS[i])
+
+                @rule(i=st.integers(0, len(W_CALLS) - 1), n=st.integers(2, 12))
+                def calls(self, i, n):
+                    for j in range(n):
+                        self.check(W_CALLS[(i + j * 7) % len(W_CALLS)])
+
+                def teardown(self):
+                    if self.changed >= 2 and len(self.history) > 8:
+                        out.nontrivial(('world', tuple(map(str, self.history[:40]))))
+                        stats['mut'] += 1
+                    if os.environ.get('HOME', '').startswith(self.root):
+                        # (b) fresh interpreters on the final world
+                        warm = [jsonable(world_call(d, self.root)) for d in W_CALLS]
+                        for reverse in (False, True):
+                            r = subprocess.run([sys.executable, '-c', WORLD_SCRIPT % {'verif': VERIF_DIR, 'calls': json.dumps(jsonable(W_CALLS)),
+                                                                                     'root': self.root, 'reverse': reverse}],
+                                               capture_output=True, text=True, timeout=600, env=dict(env, HOME=os.environ['HOME']))
+                            if r.returncode != 0:
+                                raise HarnessError('fresh interpreter failed: ' + r.stderr[-500:])
+                            fresh = json.loads([l for l in r.stdout.splitlines() if l.startswith('[')][-1])
+                            stats['fresh'] += 1
+                            for d, w, f in zip(W_CALLS, warm, fresh):
+                                out.evaluations += 1
+                                if w != f:
+                                    out.violation({'world': self.history[-60:], 'call': jsonable(d), 'got': w, 'want': f, 'reverse_order': reverse,
+                                                   'problem': 'answer after a history differs from a fresh interpreter looking at the same world'},
+                                                  size=len(self.history), bucket=('world-fresh', d[0]))
+                    import shutil
+                    shutil.rmtree(self.root, ignore_errors=True)
+
+            try:
+                run_state_machine_as_test(seed(desc['seed'])(World),
+                                          settings=settings(max_examples=desc['n'], stateful_step_count=desc['steps'], deadline=None, database=None,
+                                                            report_multiple_bugs=False, suppress_health_check=list(HealthCheck),
+                                                            verbosity=Verbosity.quiet))
+            except AssertionError:
+                pass
+    finally:
+        if home0 is None:
+            os.environ.pop('HOME', None)
+        else:
+            os.environ['HOME'] = home0
+    out.stats['world_histories_with_changes'] += stats['mut']
+    out.stats['world_home_changes'] += stats['home']
+    out.stats['world_fresh_interpreters'] += stats['fresh']
+    out.sample({'kind': 'world', 'descriptors': len(W_CALLS), 'mutations': len(muts), 'homes': W_HOMES, 'histories': desc['n'], 'max_steps': desc['steps']})
+    return out
+
+
 def run_fresh(desc):
     """The hot set and a slice of the pool evaluated in a fresh interpreter with a different hash seed."""
     out = Outcome()
@@ -431,6 +678,24 @@ def run_fresh(desc):
 
 def replay(case):
     util.clear_caches()
+    if 'world' in case:
+        home0 = os.environ.get('HOME')
+        try:
+            with util.temp_root() as tmp:
+                root = os.path.join(tmp, 'w')
+                os.mkdir(root)
+                clear_every_cache()
+                probe = tuple(tuple(x) if isinstance(x, list) else x for x in case['call'])
+                hist = case['world']
+                if hist and hist[-1] == ['call', case['call']]:
+                    hist = hist[:-1]
+                warm, cold = world_history(root, hist, probe)
+                return warm == cold, {'got': jsonable(warm), 'want': jsonable(cold)}
+        finally:
+            if home0 is None:
+                os.environ.pop('HOME', None)
+            else:
+                os.environ['HOME'] = home0
     if 'history' in case and 'call' in case and 'how' not in case:
         with FC.built_tree(TREE) as (root, _r):
             d = tuple(case['call'])
